@@ -109,4 +109,11 @@ impl Prop for EditorQueries {
 pub fn run(ctx: &mut Ctx) {
     ctx.assume("queries are issued on the main file of a single-file project; multi-file projects are covered by C35's generator");
     ctx.prop(&EditorQueries);
+    // thorough tier: coverage-guided byte fuzzing of check_lsp + queries at every offset
+    let seeds: Vec<Vec<u8>> = corpus().iter().filter(|(_, t)| t.len() <= 400).map(|(_, t)| t.as_bytes().to_vec()).collect();
+    let c = crate::campaign::Campaign { target: "fuzz_lsp", sanitizer: "none", runs: 8_000, max_len: 400, jobs: 12, seeds, dict: DICT.iter().map(|s| s.to_string()).collect() };
+    crate::campaign::guided(ctx, &EditorQueries, c, |b| {
+        let text = crate::fuzzside::text_of(b);
+        Some(TextCase { origin: "libfuzzer".into(), text, n_muts: 1 })
+    });
 }
